@@ -62,6 +62,7 @@ pub async fn start(config: Config) -> Result<(), Box<dyn std::error::Error>> {
         // the thread will stop if either the stop signal is received of the application stops
         tokio::select! {
             _ = tokio::signal::ctrl_c() => stop_token_signal.cancel(),
+            _ = terminate() => stop_token_signal.cancel(),
             _ = stop_token_signal.cancelled() => { },
         }
     });
@@ -95,4 +96,18 @@ pub async fn start(config: Config) -> Result<(), Box<dyn std::error::Error>> {
     listener.listen(config.address, stop_token.clone()).await?;
     stop_token.cancel();
     Ok(())
+}
+
+/// Completes when the process is asked to terminate (SIGTERM, what `docker stop`, Kubernetes and
+/// systemd send), never on platforms without that signal or if the handler cannot be installed.
+async fn terminate() {
+    #[cfg(unix)]
+    {
+        use tokio::signal::unix::{SignalKind, signal};
+        if let Ok(mut term) = signal(SignalKind::terminate()) {
+            term.recv().await;
+            return;
+        }
+    }
+    std::future::pending::<()>().await
 }
